@@ -28,6 +28,9 @@ import (
 // any family / prefix / scope / address bytes, including ones the codec
 // refuses (then the reference, which asks the codec, expects a rejection).
 //
+// One case in eight carries a SECOND OPT RR (shape class two-opt-rrs): RFC 6891
+// 6.1.1 makes that a format error, so the reference expects a rejection.
+//
 // Oracle = c56Judge (c56.go): every client-subnet option of the forwarded
 // message must be the genuine one for the real client; a non-genuine option
 // that is byte-identical to one the client sent is reported as
@@ -212,6 +215,7 @@ func c56OptGen(r *vkit.Run, i int) *c56Case {
 	}
 	c.Shape = c56FamOpt + ":" + c56PatternClass(pat)
 
+	twoOpt := false
 	m := c56Msg(g, 0, false)
 	if g.Chance(1, 4) {
 		m.Answer = append(m.Answer, c56RR(g))
@@ -275,6 +279,26 @@ func c56OptGen(r *vkit.Run, i int) *c56Case {
 		ex := append([]dns.RR{}, m.Extra[:pos]...)
 		ex = append(ex, o)
 		m.Extra = append(ex, m.Extra[pos:]...)
+		// a second OPT RR (before or behind the first, with or without a
+		// client-subnet option of its own): RFC 6891 6.1.1 makes such a query a
+		// format error, and an OPT RR that bfe does not rewrite would carry its
+		// client-supplied subnet option to the resolver untouched
+		if g2 := r.Rng("optspace-two-opt", i); g2.Chance(1, 8) {
+			o2 := new(dns.OPT)
+			o2.Hdr.Name = "."
+			o2.Hdr.Rrtype = dns.TypeOPT
+			o2.SetUDPSize(uint16(g2.Range(512, 4096)))
+			if g2.Chance(3, 4) {
+				kind := c56SpoofKinds[g2.Intn(6)]
+				o2.Option = append(o2.Option, &dns.EDNS0_LOCAL{Code: dns.EDNS0SUBNET, Data: c56SpoofECS(g2, kind, c)})
+			}
+			p2 := g2.Intn(len(m.Extra) + 1)
+			ex2 := append([]dns.RR{}, m.Extra[:p2]...)
+			ex2 = append(ex2, o2)
+			m.Extra = append(ex2, m.Extra[p2:]...)
+			twoOpt = true
+			c.Shape = c56FamOpt + ":two-opt-rrs"
+		}
 	}
 	wire, err := m.Pack()
 	if err != nil {
@@ -284,6 +308,8 @@ func c56OptGen(r *vkit.Run, i int) *c56Case {
 	var ref dns.Msg
 	if uerr := ref.Unpack(wire); uerr != nil {
 		c.wantErr, c.why = true, "codec cannot unpack the message: "+uerr.Error()
+	} else if twoOpt {
+		c.wantErr, c.why = true, "the message carries two OPT RRs (RFC 6891 6.1.1: format error)"
 	} else {
 		c.wantWire = wire
 	}
@@ -363,7 +389,7 @@ func c56OptSpace(r *vkit.Run, env *modEnv, up *c56Upstream) {
 	need = append(need, "optspace_option:cookie", "optspace_option:padding", "optspace_option:nsid", "optspace_option:dau", "optspace_option:unknown",
 		"optspace_method:GET", "optspace_method:POST", "optspace_optpos:only", "optspace_optpos:first", "optspace_optpos:middle", "optspace_optpos:last",
 		"optspace_opthdr:do", "optspace_opthdr:version", "optspace_opthdr:z-bits", "optspace_opthdr:ext-rcode",
-		"optspace_expect_reject", "optspace_multi_ecs_accepted", "optspace_via_module", "client_supplied_ecs_judged")
+		"optspace_class:two-opt-rrs", "optspace_expect_reject", "optspace_multi_ecs_accepted", "optspace_via_module", "client_supplied_ecs_judged")
 	for _, k := range need {
 		if r.Counter(k) == 0 {
 			r.Inconclusive("client-opt-space shape never occurred: " + k)
